@@ -262,3 +262,74 @@ def resolver_scenario(t, model):
                           os=int(g('os%d' % i)), oa=int(g('oa%d' % i, 1)),
                           uninit=(str(g('dyn_uninit%d' % i, 'False')) == 'True') or (str(g('cp_uninit%d' % i, 'False')) == 'True')))
     return dict(kind='resolver', strategy=t['strategy'], items=items)
+
+
+# ------------------------------------------------------------------------------------------ C18 (type tables)
+def table_tasks():
+    regs = [
+        [('A', False)], [('A', True)], [('A', False), ('B', True)], [('B', True), ('A', False)],
+        [('A', False), ('B', True), ('C', False)], [('C', True), ('A', True), ('B', False)],
+    ]
+    return [dict(kind='table', regs=r, dup=d) for r in regs for d in (False, True)]
+
+
+def install_table_hooks(e):
+    def tn(e_, callee, args):
+        if 'truc_dynamic_type_name' in callee:
+            return _deref(args[0])
+        return e_.type_tag
+    e.dispatch_hooks.append(('truc_type_name', tn))
+    e.dispatch_hooks.append(('truc_dynamic_type_name', tn))
+
+
+def run_table(e, t, opts):
+    """Second sentence of C18 without the JSON form: a table answers exactly what was registered (typed and
+    dynamic lookups), agrees with the host resolver where it was produced, does not answer for types that
+    were never registered, refuses a second registration. `size_of` / `align_of` of the registered types are
+    host symbols; the type-name normalisation (C17) is the identity here."""
+    install_table_hooks(e)
+    e.table_mode = True
+    e.host_syms = {}
+    table = e.call('StaticTypeResolver::new', [])
+    cell = [table]
+    tref = Ref(cell, 0)
+    for tag, un in t['regs']:
+        e.type_tag = tag
+        e.panic_tag = 'C18: registering a new type in a type table panics'
+        e.call('StaticTypeResolver::add_type_allow_uninit' if un else 'StaticTypeResolver::add_type', [tref])
+        e.panic_tag = ''
+    host = Ref([Agg('HostTypeResolver', None, [])], 0)
+    for tag, un in t['regs']:
+        e.type_tag = tag
+        e.panic_tag = 'C18: a type table does not answer for a type that was registered'
+        ti = e.call('<StaticTypeResolver as TypeResolver>::type_info', [tref])
+        dy = e.call('<StaticTypeResolver as TypeResolver>::dynamic_type_info', [tref, tag])
+        e.panic_tag = ''
+        hi = e.call('<HostTypeResolver as TypeResolver>::type_info', [host])
+        hs, ha = e.host_syms[('size', tag)], e.host_syms[('align', tag)]
+        e.verify(ti.fields[0] == tag, 'C18: a type table answers another name than the registered one')
+        e.verify(ti.fields[1] == hs, 'C18: the size a type table answers is not the one of the type where the table was produced (%s)' % tag)
+        e.verify(ti.fields[2] == ha, 'C18: the alignment a type table answers is not the one of the type where the table was produced (%s)' % tag)
+        e.verify(e.eq(ti, hi), 'C18: a type table disagrees with the host resolver on the platform where it was produced (%s)' % tag)
+        e.verify(e.eq(dy.fields[0], ti), 'C18: dynamic and typed lookups of a type table disagree (%s)' % tag)
+        e.verify(dy.fields[1] == un, 'C18: a type table answers a wrong may-be-uninitialised flag (%s)' % tag)
+    # never registered: no answer
+    e.flush_checks()
+    e.type_tag = 'UNREGISTERED'
+    for what, call in (('typed', lambda: e.call('<StaticTypeResolver as TypeResolver>::type_info', [tref])),
+                       ('dynamic', lambda: e.call('<StaticTypeResolver as TypeResolver>::dynamic_type_info', [tref, 'UNREGISTERED']))):
+        try:
+            call()
+            answered = True
+        except Panic:
+            answered = False
+        e.verify(not answered, 'C18: a type table answers a %s lookup for a type that was never registered' % what)
+    if t.get('dup'):
+        tag, un = t['regs'][0]
+        e.type_tag = tag
+        try:
+            e.call('StaticTypeResolver::add_type', [tref])
+            twice = True
+        except Panic:
+            twice = False
+        e.verify(not twice, 'C18: registering a type twice in a type table is accepted (the table no longer answers exactly what was registered)')
